@@ -181,6 +181,7 @@ impl<'a, S: BitmapSlice> AsyncZeroCopyReader for AsyncZcReader<'a, S> { }
         f = Fn(ASYNC, kw.pop('scope'), aname, requires=tagged(s.requires, sname), ensures=tagged(s.ensures, sname),
                splices=splices, props=['C20'], canary=canary, ret_name=s.ret_name, sig_subst=list(s.sig_subst), **kw)
         f.rules = ('R18',)
+        f.body_resub = list(f.body_resub) + [SV.MAPERR_ANNOT]
         return f
 
     # ---- reply helpers (impl<'a, F: AsyncFileSystem, S: BitmapSlice> SrvContext<'a, F, S>)
